@@ -123,6 +123,7 @@ class FileState:
                    'passes': [{'indirect': p.lp['indirect'], 'channels': [(d['rc'], d['samples'], d['bursts']) for d in p.lp['dsbs']],
                                'frames': p.n, 'per_record': p.lp['per_record'][:8]} for p in self.passes]})
         self.mon = Monitor(data)
+        self.mon.seek(engine.handle(data).tell())   # the handle is where its previous user left it
         self.fr = File.FileRead(self.mon, 'generated', False)
         self.index = FileIndexer.FileIndex(self.fr)
         self.lps = [ilp.logPass for ilp in self.index.genLogPasses()]
